@@ -6,7 +6,7 @@
    symbols outside the alphabet), or longer than max_length. *)
 From Coq Require Import List Arith Bool Sorted.
 From AV Require Import Base.Util Spec.Lang Spec.FA Spec.DictOrder Model.Product Model.Succ Model.SuccMachine
-                       Proofs.FiniteSucc Proofs.Succ Proofs.SuccMachine Proofs.SuccMachineRev.
+                       Proofs.FiniteSucc Proofs.Succ Proofs.SuccMachine Proofs.SuccMachineRev Proofs.SuccMachineTotal.
 Import ListNotations.
 
 (* the order the property talks about is a decidable strict total order in which a proper prefix
@@ -142,39 +142,68 @@ Print Assumptions C14_isfinite_exact.
 (* T2, forward direction: the mirror model of the explicit stack machine of DFA.successors
    (Model/SuccMachine.v: state stack, char stack, candidate, should_yield; the yield point, the
    descend / next-sibling / return-to-parent branches, pruning by co-accessibility and max_length)
-   generates exactly the specified list whenever it returns, for every fuel.  The start word must be
-   over the alphabet (a foreign symbol is the open finding successor_start_has_foreign_symbol). *)
-Theorem C14_machine_refines_successors_partial : forall fuel m start strict lo ohi l,
+   generates exactly the specified list: whatever the fuel, it never returns anything else, and with
+   the budget the driver uses (machine_fuel, or anything larger) it does return - no KeyError, no
+   IndexError, no endless loop.  Hypotheses: the start word is over the alphabet (a foreign symbol is
+   the open finding successor_start_has_foreign_symbol), the alphabet is not empty (open finding
+   successor_empty_alphabet), and max_length is given whenever the language is infinite (the code
+   does not terminate otherwise; succ_m answers Err Infinite there). *)
+Theorem C14_machine_refines_successors : forall m start strict lo ohi,
   valid_dfa m = true ->
   (ohi = None -> finite_lang (L_dfa m)) ->
   (forall s, start = Some s -> Forall (fun a => In a (d_syms m)) s) ->
-  succ_machine fuel m start strict false lo ohi = Ok l ->
-  l = succ_list m start strict lo (the_hi m ohi).
-Proof. exact machine_forward_correct. Qed.
-Print Assumptions C14_machine_refines_successors_partial.
+  (forall fuel l, succ_machine fuel m start strict false lo ohi = Ok l ->
+                  l = succ_list m start strict lo (the_hi m ohi)) /\
+  (d_syms m <> [] -> forall fuel, machine_fuel m start ohi <= fuel ->
+     succ_machine fuel m start strict false lo ohi = Ok (succ_list m start strict lo (the_hi m ohi))).
+Proof.
+  intros m start strict lo ohi Hv Hfin Hstart. split.
+  - intros fuel l. exact (machine_forward_correct fuel m start strict lo ohi l Hv Hfin Hstart).
+  - intros Hne fuel Hf. exact (machine_forward_total fuel m start strict lo ohi Hv Hfin Hstart Hne Hf).
+Qed.
+Print Assumptions C14_machine_refines_successors.
 
 (* T2, reverse direction (predecessors = successors(reverse=True), with the row-8 repair): post-order
-   over the descending alphabet, the empty word generated after the loop *)
-Theorem C14_machine_refines_predecessors_partial : forall fuel m start strict lo ohi l,
+   over the descending alphabet, the empty word generated after the loop; same budget *)
+Theorem C14_machine_refines_predecessors : forall m start strict lo ohi,
   valid_dfa m = true ->
   finite_lang (L_dfa m) ->
   (forall s, start = Some s -> Forall (fun a => In a (d_syms m)) s) ->
-  succ_machine fuel m start strict true lo ohi = Ok l ->
-  l = pred_list m start strict lo (the_hi m ohi).
-Proof. exact machine_reverse_correct. Qed.
-Print Assumptions C14_machine_refines_predecessors_partial.
+  (forall fuel l, succ_machine fuel m start strict true lo ohi = Ok l ->
+                  l = pred_list m start strict lo (the_hi m ohi)) /\
+  (d_syms m <> [] -> forall fuel, machine_fuel m start ohi <= fuel ->
+     succ_machine fuel m start strict true lo ohi = Ok (pred_list m start strict lo (the_hi m ohi))).
+Proof.
+  intros m start strict lo ohi Hv Hfin Hstart. split.
+  - intros fuel l. exact (machine_reverse_correct fuel m start strict lo ohi l Hv Hfin Hstart).
+  - intros Hne fuel Hf. exact (machine_reverse_total fuel m start strict lo ohi Hv Hfin Hstart Hne Hf).
+Qed.
+Print Assumptions C14_machine_refines_predecessors.
 
-(* The full T2 statement also promises termination within the budget the driver uses.  It is NOT
-   proved (the two theorems above are partial correctness: for every fuel, whenever the machine
-   returns).  The correspondence run fails on any Err Fuel answer; none has been observed. *)
-Definition C14_machine_total_statement : Prop :=
-  forall m start strict reverse lo ohi, valid_dfa m = true ->
-    (reverse = true \/ ohi = None -> finite_lang (L_dfa m)) ->
-    (forall s, start = Some s -> Forall (fun a => In a (d_syms m)) s) ->
-    d_syms m <> [] ->
-    succ_machine (machine_fuel m start ohi) m start strict reverse lo ohi =
-      Ok (if reverse then pred_list m start strict lo (the_hi m ohi)
-          else succ_list m start strict lo (the_hi m ohi)).
+(* the statement that used to be open (C14_machine_total_statement), in one piece: with the driver's
+   budget the machine returns the specified list, in either direction *)
+Theorem C14_machine_total : forall m start strict reverse lo ohi, valid_dfa m = true ->
+  (reverse = true \/ ohi = None -> finite_lang (L_dfa m)) ->
+  (forall s, start = Some s -> Forall (fun a => In a (d_syms m)) s) ->
+  d_syms m <> [] ->
+  succ_machine (machine_fuel m start ohi) m start strict reverse lo ohi =
+    Ok (if reverse then pred_list m start strict lo (the_hi m ohi)
+        else succ_list m start strict lo (the_hi m ohi)).
+Proof.
+  intros m start strict reverse lo ohi Hv Hfin Hstart Hne. destruct reverse.
+  - apply machine_reverse_total; auto.
+  - apply machine_forward_total; auto.
+Qed.
+Print Assumptions C14_machine_total.
+
+(* the iteration count behind the budget: a traversal never needs more than (n+1) loop iterations per
+   node of the trie of words of length <= hi over the n symbols, plus (n+1) per symbol of the start word *)
+Theorem C14_machine_fuel_formula : forall m start ohi,
+  machine_fuel m start ohi =
+    S ((words_upto (length (set_of (d_syms m))) (the_hi m ohi)
+        + match start with Some s => length s | None => 0 end + 1) * (length (set_of (d_syms m)) + 2)).
+Proof. reflexivity. Qed.
+Print Assumptions C14_machine_fuel_formula.
 
 (* ---- non-vacuity ---- *)
 (* partial DFA over {0,1}: 0 -0-> 1, 0 -1-> 2, 1 -1-> 2; finals {0,2}: L = {e, 1, 01} *)
